@@ -599,7 +599,7 @@ impl Case {
         }
         self.model.c.receipts_verified += 1;
         self.model.users.get_mut(&user).unwrap().avail = new_avail;
-        let base = Expect { allowed: BTreeSet::new(), on_gone: OnGone::Forfeit, props: vec!["C08"], why: String::new(), conf_if_responded: None, ver, start_block: h, user_sig: sig.clone() };
+        let base = Expect { allowed: BTreeSet::new(), on_gone: OnGone::Forfeit, props: vec!["C08"], why: String::new(), conf_if_responded: None, ver, start_block: h, user_sig: sig.clone(), no_node_contact: false };
         let mut exp = BTreeMap::new();
         if !triggered {
             exp.insert(key, Expect { allowed: BTreeSet::from([Out::Watched]), why: "accepted, not triggered: must be stored exactly as sent".into(), ..base });
@@ -608,17 +608,25 @@ impl Case {
             for x in out {
                 self.v(x);
             }
-        } else if existing.is_some() {
+        } else if existing.is_some() && v.penalty.is_none() {
             // stored without tracker although its dispute is in the look-up window (only reachable after
-            // an "already in chain" verdict): not pinned down by the statements. Stop modelling here.
+            // an "already in chain" verdict), re-sent with a blob that does not decrypt: which version
+            // is "held" afterwards is not pinned down by the statements. Stop modelling here.
             self.tolerated_divergence = true;
             self.stopped = true;
             return;
         } else {
+            if existing.is_some() {
+                // same state, decryptable re-send: the new version replaces the stored one and is
+                // evaluated like a fresh breach (the difference in slots has been charged)
+                if let Some(m) = self.model.appts.get_mut(&key) {
+                    m.ver = ver;
+                }
+            }
             // evaluated exactly like a breach found in a block, before the reply
             let a = model::MAppt { ver, start_block: h, user_sig: sig.clone(), state: MState::Watched };
             let mut out = Vec::new();
-            let (allowed, conf) = self.model.trigger_outcomes_pub(&self.world, &lock(&self.world.chain), key, &a, &w, &epoch, &mut out);
+            let (allowed, conf, no_node_contact) = self.model.trigger_outcomes_pub(&self.world, &lock(&self.world.chain), key, &a, &w, &epoch, &mut out);
             let mut just = BTreeSet::new();
             if let Some(p) = &v.penalty {
                 just.insert(p.compute_txid());
@@ -627,7 +635,7 @@ impl Case {
             for x in out {
                 self.v(x);
             }
-            exp.insert(key, Expect { allowed, props: vec!["C01"], why: format!("accepted while its dispute is within the six most recent blocks; blob kind {:?}", v.kind), conf_if_responded: conf, ..base });
+            exp.insert(key, Expect { allowed, props: vec!["C01"], why: format!("accepted while its dispute is within the six most recent blocks; blob kind {:?}", v.kind), conf_if_responded: conf, no_node_contact, ..base });
         }
         self.finish_request(s, snap, exp, &["C06"], &ctx);
     }
